@@ -184,6 +184,28 @@ func genInheritance(t *rapid.T) (SetCase, map[string]bool) {
 		}
 		tm := &Tmpl{Name: tname(level), Extends: ext}
 		tm.Body = append(tm.Body, Text("junk-before"))
+		junk := func() {
+			// content outside blocks in a child produces no output, whatever it is
+			switch g.pick(6, "junkkind") {
+			case 0:
+				tm.Body = append(tm.Body, Print(Var("a")))
+				g.stats["output-producing-tags-outside-blocks"] = true
+			case 1:
+				tm.Body = append(tm.Body, &S{K: "if", Conds: []*E{Var("t")}, Bodies: [][]*S{{Text("junk-if")}}})
+				g.stats["output-producing-tags-outside-blocks"] = true
+			case 2:
+				tm.Body = append(tm.Body, &S{K: "for", Name: "j", E: Var("xs"), Body: []*S{Text("junk-for"), Print(Var("j"))}})
+				g.stats["output-producing-tags-outside-blocks"] = true
+			case 3:
+				tm.Body = append(tm.Body, Print(Str("junk-print")))
+				g.stats["output-producing-tags-outside-blocks"] = true
+			default:
+				tm.Body = append(tm.Body, Text(" junk "))
+			}
+		}
+		if g.pick(2, "junkfirst") == 0 {
+			junk()
+		}
 		for b := 0; b < g.nblk; b++ {
 			if at := g.nestedAt[b]; at > level && g.pick(2, "overnested") == 0 {
 				// override of the block that a less derived override introduced
@@ -200,7 +222,7 @@ func genInheritance(t *rapid.T) (SetCase, map[string]bool) {
 			}
 			tm.Body = append(tm.Body, &S{K: "block", Name: bname(b), Body: g.blockBody(level, b, true, place[b] == 2)})
 			if g.pick(2, "junkbetween") == 0 {
-				tm.Body = append(tm.Body, Text(" junk "))
+				junk()
 			}
 		}
 		if g.pick(3, "comment") == 0 {
@@ -228,7 +250,7 @@ func genInheritance(t *rapid.T) (SetCase, map[string]bool) {
 	return sc, g.stats
 }
 
-const c10Rule = "extends chains of 1-5 templates over 1-4 blocks placed at top level, inside a loop, inside a conditional or inside another block of the base layout; every level independently omits, overrides with text/prints/conditionals, overrides with an empty body, or overrides and calls parent() (before, after, twice, inside an if), or introduces a new block inside its override which more derived templates override in turn; parent names static or dynamic (variable, concatenation, conditional); children carry text and comments outside blocks; the layout may include a partial with a block named like one of the chain's; non-trivial = chain length >= 3, or an empty override, or parent(), or a block inside a loop/conditional/other block; distinct by source set"
+const c10Rule = "extends chains of 1-5 templates over 1-4 blocks placed at top level, inside a loop, inside a conditional or inside another block of the base layout; every level independently omits, overrides with text/prints/conditionals, overrides with an empty body, or overrides and calls parent() (before, after, twice, inside an if), or introduces a new block inside its override which more derived templates override in turn; parent names static or dynamic (variable, concatenation, conditional); children carry text, comments, print tags, conditionals and loops outside blocks (none of which may produce output); the layout may include a partial with a block named like one of the chain's; non-trivial = chain length >= 3, or an empty override, or parent(), or a block inside a loop/conditional/other block; distinct by source set"
 
 func TestC10Inheritance(t *testing.T) {
 	r := NewRec(t, "C10", c10Rule)
